@@ -212,6 +212,14 @@ pub fn gen_case(rng: &mut Rng, idx: u64) -> Case {
             let exts = ["1e308", "-1e308", "1e-320", "9007199254740993", "-9223372036854775809", "0.1000000000000000055511151231257827", "1e400", "NaN"];
             let a = rng.pick(&exts);
             let b = rng.pick(&exts);
+            if rng.chance(1, 3) {
+                // a single large integer multipleOf (the number lexeme is built by counting remainders)
+                let quick = ["65535", "65536", "1000000", "3000000"];
+                let thorough = ["65536", "3000000", "16777216", "2147483648", "4294967295", "4294967296"];
+                let m = if THOROUGH.load(std::sync::atomic::Ordering::Relaxed) { *rng.pick(&thorough) } else { *rng.pick(&quick) };
+                let ty = *rng.pick(&["integer", "number"]);
+                return mk("json", GCase::json("huge_mult", &format!("{{\"type\":\"{ty}\",\"multipleOf\":{m}}}")), "huge_multipleOf");
+            }
             mk("json", GCase::json("num_ext", &format!("{{\"type\":\"number\",\"minimum\":{a},\"maximum\":{b},\"multipleOf\":{}}}", rng.pick(&["1e-10", "0", "1e300", "3", "-2"]))), "numeric_extremes")
         }
         21 => {
@@ -406,6 +414,10 @@ pub fn run_one(case: &Case, seed: u64) -> Outcome {
                             if ok {
                                 hist_len += 1;
                                 hist.push(t);
+                            } else if case.words.is_some() && t == v.eos {
+                                // degenerate vocabularies give the EOS id ordinary text bytes shared with other ids:
+                                // its mask bit belongs to the duplicates, its commit is an EOS commit
+                                failed = true;
                             } else if !m.is_resource_stop() && !m.panicked && !crate::tp::accepted_with_relaxed_limits(&v, case.slices.clone(), g, &hist, t) {
                                 out.problems.push(("masked_token_rejected".into(), json!({"token": t, "stop": format!("{:?}", m.stop_reason())})));
                                 failed = true;
